@@ -41,7 +41,7 @@ func C14_ParseWrites() {
 	in := inputFor(g, rt.Param("N", 3))
 	named := rt.Choose("named", 2) == 1
 	rt.Note(g.Name)
-	bt := Build(g, &Wrap{Name: named, Node: bindAll})
+	bt := Build(g, &Wrap{Name: named, NameSeq: named, Node: bindAll})
 	root := combinator.Sentence(bt.Root)
 	if rt.Symbolic() {
 		rt.Epoch()
